@@ -107,7 +107,7 @@ def write_library(dirpath, groups, descriptors=None, empty=None, uq=None, extra=
     return path
 
 
-def rnd_library(rng, dirpath, with_uq=False):
+def rnd_library(rng, dirpath, with_uq=False, uq_kind=None):
     k = rng.randint(3, 10)
     names = rng.sample(SYN_NAMES, k)
     groups = {n: rnd_corr(rng) for n in names}
@@ -134,11 +134,12 @@ def rnd_library(rng, dirpath, with_uq=False):
         # random symmetric PSD: A'A with small integers /10
         A = [[rng.randint(-9, 9) / 10.0 for _ in range(n)] for _ in range(n)]
         M = [[round(sum(A[r][i] * A[r][j] for r in range(n)), 6) for j in range(n)] for i in range(n)]
-        if rng.random() < 0.3:
+        kind_ = uq_kind or ('int' if rng.random() < 0.3 else 'nonsym' if rng.random() < 0.4 else 'float')
+        if kind_ == 'int':
             # written without decimal points: the stored matrix is integer typed, the counts it multiplies need not be
             A = [[rng.randint(-3, 3) for _ in range(n)] for _ in range(n)]
             M = [[sum(A[r][i] * A[r][j] for r in range(n)) for j in range(n)] for i in range(n)]
-        elif rng.random() < 0.4:
+        elif kind_ == 'nonsym':
             # not symmetric as stored: an antisymmetric part leaves x'Mx (and its sign) unchanged
             for i in range(n):
                 for j in range(i + 1, n):
